@@ -177,6 +177,25 @@ class U:
         m['S5'] = {'kind': 'sticky'}
         o['R4'] = MyRef('>', T6['id'], T1['id'])
         m['R4'] = {'kind': 'ref', 'tables': ('T6', 'T1'), 'eq': 'r4'}
+        # a reference all of whose tables live in ANOTHER database; the same reference as R1 spelled with tuples; a
+        # reference built from lists the caller goes on using afterwards
+        self.db2 = Database()
+        tw1, tw2 = Table('w1'), Table('w2')
+        for tw in (tw1, tw2):
+            tw.add_column(Column('id', 'int'))
+            self.db2.add(tw)
+        o['R5'] = Reference('>', tw1['id'], tw2['id'])
+        m['R5'] = {'kind': 'ref', 'tables': ('TW1', 'TW2'), 'eq': 'r5'}
+        o['R1t'] = Reference('>', (T1['id'],), (T3['id'],))
+        m['R1t'] = {'kind': 'ref', 'tables': ('T1', 'T3'), 'eq': 'r1'}
+        l1, l2 = [T6['id']], [T3['id']]
+        o['R6'] = Reference('-', l1, l2)
+        m['R6'] = {'kind': 'ref', 'tables': ('T6', 'T3'), 'eq': 'r6'}
+        l1.append(T1['x'])          # the caller's own lists change afterwards: the reference keeps what it was given
+        l2[0] = T1['id']
+        self.ref_cols = {'R1': ([T1['id']], [T3['id']]), 'R1b': ([T1['id']], [T3['id']]), 'R1t': ([T1['id']], [T3['id']]),
+                         'R3': ([T3['id']], [T6['id']]), 'R4': ([T6['id']], [T1['id']]), 'R6': ([T6['id']], [T3['id']]),
+                         'R5': ([tw1['id']], [tw2['id']])}
         o['U1'], o['U2'], o['U3'] = 'a string', 42, Column('loose', 'int')
         for uid in ('U1', 'U2', 'U3'):
             m[uid] = {'kind': 'unsupported'}
@@ -218,9 +237,9 @@ DB_OBJECTS = ['T1', 'T1b', 'T2', 'T3', 'T4', 'T5', 'T6', 'T7', 'E1', 'E1b', 'E2'
               'P1', 'P2', 'S1', 'S2', 'U1', 'U2', 'U3']
 DB_OPS = [('add', x) for x in DB_OBJECTS] + [('del', x) for x in DB_OBJECTS if x not in ('U3',)] + \
          [('ren', t, f) for t in ('T1', 'T3', 'T6') for f in ('name', 'schema', 'alias')] + [('delproject',)]
-EXTRA_OBJECTS = ['E4', 'E5', 'S3', 'S4', 'T8', 'E6', 'G4', 'P3', 'S5', 'R4']
+EXTRA_OBJECTS = ['E4', 'E5', 'S3', 'S4', 'T8', 'E6', 'G4', 'P3', 'S5', 'R4', 'R5', 'R1t', 'R6']
 EXTRA_OPS = [('add', x) for x in EXTRA_OBJECTS] + [('del', x) for x in EXTRA_OBJECTS]
-NEAR_OPS = EXTRA_OPS + [('add', 'T6'), ('add', 'T1'), ('add', 'P1'), ('del', 'P1'), ('add', 'S1'), ('delproject',)]
+NEAR_OPS = EXTRA_OPS + [('add', 'T6'), ('add', 'T1'), ('add', 'T3'), ('add', 'R1'), ('del', 'R1'), ('add', 'P1'), ('del', 'P1'), ('add', 'S1'), ('delproject',)]
 TYPED = {'table': ('add_table', 'delete_table'), 'enum': ('add_enum', 'delete_enum'), 'group': ('add_table_group', 'delete_table_group'),
          'ref': ('add_reference', 'delete_reference'), 'project': ('add_project', None), 'sticky': ('add_sticky_note', None)}
 
@@ -366,6 +385,13 @@ def observe_db(u):
     gp = rid.get(id(db.project), '?') if db.project is not None else None
     if gp != u.project:
         out.append(('project', f'project={gp} model={u.project}'))
+    for uid, (c1, c2) in getattr(u, 'ref_cols', {}).items():
+        r_ = o[uid]
+        if len(r_.col1) != len(c1) or len(r_.col2) != len(c2) or any(a is not b for a, b in zip(list(r_.col1) + list(r_.col2), c1 + c2)):
+            out.append(('reference-columns-changed', f'{uid}: columns are no longer the ones it was built with'))
+    if getattr(u, 'db2', None) is not None:
+        if len(u.db2.tables) != 2 or u.db2.refs or any(t.database is not u.db2 for t in u.db2.tables):
+            out.append(('other-database-changed', f'the second database now has tables {len(u.db2.tables)}, refs {len(u.db2.refs)}'))
     contained = set(u.tables) | set(u.enums) | set(u.groups) | set(u.refs) | set(u.stickies) | ({u.project} if u.project else set())
     for uid, r in u.m.items():
         if r['kind'] == 'unsupported':
